@@ -38,7 +38,7 @@ def replay_witness(w):
 
 def jobs(tier, seed):
     js = th.tree_jobs(tier, extra=dict(monitor='passive')) + th.tree_jobs(tier, extra=dict(monitor='active'))
-    js += [dict(j, alpha=3, extra=dict(monitor='passive')) for j in th.KNOWN_DUP_JOBS]
+    js += [dict(dict(alpha=3), **dict(j, extra=dict(monitor='passive'))) for j in th.KNOWN_DUP_JOBS] + [dict(dict(alpha=3), **dict(j, extra=dict(monitor='active'))) for j in th.KNOWN_DUP_JOBS if 'dups-s' in j['fam']]
     return js
 
 META = dict(functions=th.TREE_FUNCTIONS, stubs=th.TREE_STUBS, assumptions=th.TREE_ASSUME, files=th.TREE_FILES)
